@@ -6,7 +6,7 @@ from mc.harness import harness, oracle
 from mc.kit import E2, ProbeFuture, snapshot, brief
 from more_executors._impl import futures as F
 
-OUTS = ("v", "exc", "cancelled", "never")
+OUTS = ("v", "exc", "cancelled", "never", "running")
 
 
 def ref_zip(kind, outs, order, dupmap=None):
@@ -74,10 +74,13 @@ def hbody(mc, p):
     outs = p["outs"]
     n = len(outs)
     ins = [ProbeFuture(mc, "in%d" % i) for i in range(n)]
+    for i in range(n):
+        if outs[i] == "running":
+            ins[i].set_running_or_notify_cancel()       # refuses cancel(), never finishes
     tl = []
     out = build(mc, p["kind"], ins, p["dup"], tl)
     order = []
-    pending = [i for i in range(n) if outs[i] != "never"]
+    pending = [i for i in range(n) if outs[i] not in ("never", "running")]
     cancelled_out = False
     while True:
         choices = [("in", i) for i in pending]
